@@ -97,6 +97,8 @@ type Worker struct {
 	R        *Runner
 	ID       int
 	curStart atomic.Int64 // unix nanos of Begin; 0 = idle
+	// libStart: unix nanos since which the worker has been inside code under test (Try / Timed); 0 = in harness code
+	libStart atomic.Int64
 	curMu    sync.Mutex
 	cur      string
 	item     int64
@@ -242,7 +244,17 @@ func (w *Worker) Fail(sig, src, detail string, extra map[string]any) {
 }
 
 // Try runs f and converts a panic into a violation; it returns false on panic.
+// Timed marks f as code under test for the watchdog: only the time spent inside it counts towards the hang
+// limit, so that work of the harness between two calls (enumeration, reference evaluation) is never mistaken for a hang.
+func (w *Worker) Timed(f func()) {
+	w.libStart.Store(time.Now().UnixNano())
+	defer w.libStart.Store(0)
+	f()
+}
+
 func (w *Worker) Try(src string, f func()) (ok bool) {
+	w.libStart.Store(time.Now().UnixNano())
+	defer w.libStart.Store(0)
 	defer func() {
 		if p := recover(); p != nil {
 			st := string(debug.Stack())
@@ -356,7 +368,17 @@ func (r *Runner) watchdog() {
 		time.Sleep(500 * time.Millisecond)
 		now := time.Now().UnixNano()
 		for _, w := range r.workers {
-			st := w.curStart.Load()
+			// the harness itself has not moved on for five minutes: a fault of the machinery, not a verdict
+			if cs := w.curStart.Load(); cs != 0 && now-cs > 300*int64(time.Second) && w.libStart.Load() == 0 {
+				w.curMu.Lock()
+				src := w.cur
+				w.curMu.Unlock()
+				if w.curStart.Load() == cs {
+					fmt.Fprintf(os.Stderr, "CHECK-ERROR the harness made no progress for 300 s after the case %q (check %s)\n", src, w.check)
+					os.Exit(2)
+				}
+			}
+			st := w.libStart.Load()
 			limit := r.HangLimit.Load()
 			if limit == 0 {
 				limit = HangSeconds
@@ -365,8 +387,8 @@ func (r *Runner) watchdog() {
 				w.curMu.Lock()
 				src := w.cur
 				w.curMu.Unlock()
-				// still the same case?
-				if w.curStart.Load() != st {
+				// still the same call?
+				if w.libStart.Load() != st {
 					continue
 				}
 				v := Viol{Property: r.Property, Check: w.check, Sig: "hang", Source: src,
@@ -385,6 +407,25 @@ func (r *Runner) watchdog() {
 		if time.Now().Unix()%4 == 0 {
 			runtime.ReadMemStats(&ms)
 			if ms.HeapAlloc > 12<<30 {
+				// a call into the code under test that has been running for seconds while the heap explodes is that
+				// call's doing (exponential output / error lists): report it like a hang
+				for _, w := range r.workers {
+					if ls := w.libStart.Load(); ls != 0 && now-ls > 2*int64(time.Second) {
+						w.curMu.Lock()
+						src := w.cur
+						w.curMu.Unlock()
+						v := Viol{Property: r.Property, Check: w.check, Sig: "hang", Source: src,
+							Detail: fmt.Sprintf("call still running after %d s with the heap above 12 GiB", (now-ls)/int64(time.Second))}
+						r.mu.Lock()
+						r.viols = append(r.viols, v)
+						r.sigCount["hang"]++
+						r.Exhaust = false
+						r.capsHit = append(r.capsHit, "aborted by watchdog on a case that exhausts memory")
+						r.mu.Unlock()
+						code := r.finish(true)
+						os.Exit(code)
+					}
+				}
 				var cases []string
 				for _, w := range r.workers {
 					if w.curStart.Load() != 0 {
